@@ -105,3 +105,102 @@ def _product_structure(E, s):
     finally:
         for mod, f in saved.items():
             mod.rank_chop = f
+
+
+@scenario
+def solve_structure(E, s):
+    """C12/C13 structural clause: amen_solve / elementwise division return a well-formed TT tensor of the right shape and raise nothing"""
+    if E.mode == 'real':
+        for variant in range(4):
+            _solve_structure(E, dict(s, seed=variant))
+            if any(r['status'] != 'ok' for r in E.results):
+                return
+        return
+    _solve_structure(E, s)
+
+
+def _spd_like(E, N, RA, seed):
+    """real mode: a well conditioned operator (identity + small perturbation) of the requested structure"""
+    tn, tt = E.tn, E.tt
+    d = len(N)
+    cores = []
+    for k in range(d):
+        c = 0.05 * tn.randn(RA[k], N[k], N[k], RA[k + 1], dtype=tn.float64)
+        c[0, :, :, 0] += tn.eye(N[k], dtype=tn.float64)
+        cores.append(c)
+    return tt.TT(cores)
+
+
+def _iterative_contracts(E):
+    """stand-ins for the local iterative solvers (value-driven Krylov loops): the operator is applied once to the start vector,
+    so its shape calculus (incl. preconditioners) is executed, and a havoc vector of the start vector's shape is returned"""
+    def gmres_restart(LinOp, b, x0, N, max_iterations, threshold, resets=4):
+        y = LinOp.matvec(x0)
+        if list(y.shape) != list(b.shape):
+            raise RuntimeError('local operator maps %s to %s, right-hand side is %s' % (list(x0.shape), list(y.shape), list(b.shape)))
+        return E.havoc_tensor(list(x0.shape), str(x0.dtype).replace('torch.', '')), True, 1
+
+    def bicgstab_reset(Op, rhs, x0, eps=1e-6, nmax=40):
+        y = Op.matvec(x0)
+        if list(y.shape) != list(rhs.shape):
+            raise RuntimeError('local operator maps %s to %s, right-hand side is %s' % (list(x0.shape), list(y.shape), list(rhs.shape)))
+        return E.havoc_tensor(list(x0.shape), str(x0.dtype).replace('torch.', '')), 1, 1, E.havoc_tensor([])
+    return gmres_restart, bicgstab_reset
+
+
+def _solve_structure(E, s):
+    tn, tt = E.tn, E.tt
+    op = s['op']
+    N = s['N']
+    d = len(N)
+    kw = dict(s.get('kw', {}))
+    if E.mode == 'real':
+        tn.manual_seed(s.get('seed', 0))
+    saved = {}
+    if E.mode != 'real':
+        import torchtt.solvers as so
+        import torchtt._division as dv
+        g_, b_ = _iterative_contracts(E)
+        for mod in (so, dv):
+            saved[mod] = (getattr(mod, 'rank_chop', None), mod.gmres_restart, mod.BiCGSTAB_reset, mod.__dict__.get('range'))
+            if hasattr(mod, 'rank_chop'):
+                mod.rank_chop = _rank_chop_contract(E)
+            mod.gmres_restart, mod.BiCGSTAB_reset = g_, b_
+            if s.get('unroll'):
+                from .c14 import _Bounded
+                mod.range = _Bounded(E, s['unroll'])
+    try:
+        if op == 'amen_solve':
+            A = _spd_like(E, N, s['RA'], s.get('seed', 0)) if E.mode == 'real' else _tt(E, N, s['RA'], N)
+            b = _tt(E, N, s['Rb'])
+            if s.get('guess'):
+                kw['x0'] = _tt(E, N, s['guess'])
+            y = tt.solvers.amen_solve(A, b, verbose=False, **kw)
+            _wellformed(E, y, N)
+        elif op in ('divide', 'rdivide', 'elementwise_divide'):
+            x = _tt(E, N, s['RA'])
+            if E.mode == 'real':
+                z = _tt(E, N, s['Rb'])
+                yv = z * z + tt.ones(N, dtype=tn.float64)         # entries bounded away from zero
+            else:
+                yv = _tt(E, N, s['Rb'])
+            if op == 'divide':
+                y = x / yv
+            elif op == 'rdivide':
+                y = 2.5 / yv
+            else:
+                if s.get('guess'):
+                    kw['starting_tensor'] = _tt(E, N, s['guess'])
+                y = tt.elementwise_divide(x, yv, **kw)
+            _wellformed(E, y, N)
+        else:
+            raise ValueError(op)
+    finally:
+        for mod, f in saved.items():
+            if f[0] is not None:
+                mod.rank_chop = f[0]
+            mod.gmres_restart, mod.BiCGSTAB_reset = f[1], f[2]
+            if f[3] is None:
+                mod.__dict__.pop('range', None)
+            else:
+                mod.range = f[3]
